@@ -16,7 +16,7 @@ pub static DEF: PropDef = PropDef {
     id: "C16",
     level: "exploration",
     engine: "query",
-    rule: "one run = a real CachedObjectStore + TieredCache (L1 from 300 bytes, i.e. evict on every insert, to 8 MB; no disk tier in the seeded phase, foyer disk tier of 64 KB..1 MB on /dev/shm in the thorough-only 'l2' phase) over the simulated store, a growing set of 80..200 write-once objects of 1 byte..6 KB written in 3..5 waves, and 2..4 concurrent reader tasks issuing 30..80 reads each (whole GET, get_range, GET with range option, If-Match / If-None-Match with right and wrong ETags, never-written keys incl. keys that share a file name or prefix with written ones); the inner store's requests are seeded scheduling points (concurrent misses on the same and on different keys), half of the runs inject request failures on the miss path, a third drop one read in eight at a seeded point (reader went away: a dropped leader of a coalesced miss must not poison what the others get); whenever a read returns bytes they must equal the backing store's object (the requested range of it), a missing key must fail; distinct = distinct grant sequence; non-trivial = completed AND an L1 eviction happened (misses on re-read keys)",
+    rule: "one run = a real CachedObjectStore + TieredCache (L1 from 300 bytes, i.e. evict on every insert, to 8 MB; no disk tier in the seeded phase, foyer disk tier of 64 KB..1 MB on /dev/shm in the thorough-only 'l2' phase) over the simulated store, a growing set of 80..200 write-once objects of 1 byte..6 KB written in 3..5 waves, and 2..4 concurrent reader tasks issuing 30..80 reads each (whole GET, get_range, get_ranges with nested / touching / out-of-order ranges, GET with range option, If-Match / If-None-Match with right and wrong ETags, never-written keys incl. keys that share a file name or prefix with written ones); the inner store's requests are seeded scheduling points (concurrent misses on the same and on different keys), half of the runs inject request failures on the miss path, a third drop one read in eight at a seeded point (reader went away: a dropped leader of a coalesced miss must not poison what the others get); whenever a read returns bytes they must equal the backing store's object (the requested range of it), a missing key must fail; distinct = distinct grant sequence; non-trivial = completed AND an L1 eviction happened (misses on re-read keys)",
     quick_runs: 5000,
     thorough_runs: 30_000,
     run_cap_ms: 60_000,
@@ -98,7 +98,7 @@ fn scen(spec: RunSpec) -> ScenFut {
             for r in 0..readers {
                 let nreads = sim::w_range(30, 80);
                 let plan: Vec<(u32, usize, usize, usize, Option<u32>)> = (0..nreads)
-                    .map(|_| (sim::w(10), sim::w(written as u32 + 6) as usize, sim::w(7000) as usize, sim::w(7000) as usize, if cancels && sim::w(8) == 7 { Some(sim::w(6)) } else { None }))
+                    .map(|_| (sim::w(11), sim::w(written as u32 + 6) as usize, sim::w(7000) as usize, sim::w(7000) as usize, if cancels && sim::w(8) == 7 { Some(sim::w(6)) } else { None }))
                     .collect();
                 let cs = cs.clone();
                 let model = model.clone();
@@ -126,7 +126,8 @@ fn scen(spec: RunSpec) -> ScenFut {
                         // every read is a request of its own; a reader that goes away drops it at a seeded point
                         let req = tokio::spawn(async move {
                             let (cs, want, p) = (cs2, want2, p2);
-                            let r: Option<(String, Result<Bytes, String>)> = Some(match kind {
+                            let mut expect_override: Option<Vec<u8>> = None;
+                            let r0: Option<(String, Result<Bytes, String>)> = Some(match kind {
                             0..=4 => ("get".into(), match cs.get(&p).await {
                                 Ok(g) => g.bytes().await.map_err(|e| e.to_string()),
                                 Err(e) => Err(e.to_string()),
@@ -147,6 +148,35 @@ fn scen(spec: RunSpec) -> ScenFut {
                                         Err(e) => Err(e.to_string()),
                                     })
                                 }
+                            }
+                            10 => {
+                                // several ranges in one call: nested, adjacent and out-of-order ones included
+                                let Some((data, _)) = want.as_ref() else { return None };
+                                let len = data.len();
+                                let (s, e) = (a % (len + 1), b % (len + 1));
+                                let (s, e) = (s.min(e), s.max(e));
+                                let mut ranges: Vec<std::ops::Range<usize>> = Vec::new();
+                                if e > s {
+                                    ranges.push(s..e);
+                                    let (ns, ne) = (s + (e - s) / 4, s + (e - s) / 2);
+                                    if ne > ns {
+                                        ranges.push(ns..ne); // lies inside the first
+                                    }
+                                    if e < len {
+                                        ranges.push(e..len.min(e + 7)); // touches the first
+                                    }
+                                }
+                                if s > 0 {
+                                    ranges.push(0..s.min(9)); // before the first (out of order)
+                                }
+                                if ranges.is_empty() {
+                                    return None;
+                                }
+                                if (a + b) % 2 == 1 {
+                                    ranges.reverse();
+                                }
+                                expect_override = Some(ranges.iter().flat_map(|r| data[r.clone()].to_vec()).collect());
+                                (format!("get_ranges {:?}", ranges), cs.get_ranges(&p, &ranges).await.map(|v| Bytes::from(v.iter().flat_map(|b| b.to_vec()).collect::<Vec<u8>>())).map_err(|e| e.to_string()))
                             }
                             7 => {
                                 let etag = want.as_ref().and_then(|w| w.1.clone());
@@ -171,7 +201,7 @@ fn scen(spec: RunSpec) -> ScenFut {
                                 })
                             }
                         });
-                            r
+                            r0.map(|(w, g)| (w, g, expect_override))
                         });
                         if let Some(kc) = cancel {
                             let ab = req.abort_handle();
@@ -185,12 +215,17 @@ fn scen(spec: RunSpec) -> ScenFut {
                                 }
                             });
                         }
-                        let (what, got) = match req.await {
-                            Ok(Some(x)) => x,
-                            Ok(None) => continue,
-                            Err(_) => {
+                        // nothing in a read sleeps: 60 virtual seconds are far beyond any legitimate duration
+                        let (what, got, expect_override) = match tokio::time::timeout(std::time::Duration::from_secs(60), req).await {
+                            Ok(Ok(Some(x))) => x,
+                            Ok(Ok(None)) => continue,
+                            Ok(Err(_)) => {
                                 sim::probe("read-dropped-midway");
                                 continue;
+                            }
+                            Err(_) => {
+                                sim::violation("C16/read-never-returns", format!("reader {r}: a read of {name} did not return within 60 virtual seconds (nothing was parked at the store)"));
+                                return;
                             }
                         };
                         // oracle
@@ -201,7 +236,9 @@ fn scen(spec: RunSpec) -> ScenFut {
                             }
                             (None, Err(_)) => sim::probe("missing-key-error"),
                             (Some((data, _)), Ok(b)) => {
-                                let expect: &[u8] = if what.contains("range") {
+                                let expect: &[u8] = if let Some(o) = &expect_override {
+                                    &o[..]
+                                } else if what.contains("range") {
                                     let rng: Vec<usize> = what.rsplit(' ').next().unwrap().split("..").map(|x| x.parse().unwrap()).collect();
                                     &data[rng[0]..rng[1]]
                                 } else {
